@@ -15,7 +15,16 @@ PARTS = HEAD + consts('LEAD_SIZE', 'INDEX_HEADER_SIZE', 'INDEX_ENTRY_SIZE', 'HEA
         'impl Tag for IndexSignatureTag { open spec fn spec_to_u32(&self) -> u32 { self.v } fn to_u32(&self) -> u32 { self.v } }\n'
         'impl Tag for IndexTag { open spec fn spec_to_u32(&self) -> u32 { self.v } fn to_u32(&self) -> u32 { self.v } }\n',
         'R5 tag instances + opaque Lead'),
-    Raw('impl<T: Tag> Header<T> {\n'),
+    Raw('''/// the part of wf() every constructor / mutator of a header must maintain: the intro counts
+/// describe the entries and the store (this is what makes the offsets real boundaries)
+pub open spec fn wf_counts<T: Tag>(h: Header<T>) -> bool {
+    h.index_entries@.len() == h.index_header.num_entries && h.store@.len() == h.index_header.data_section_size
+}
+impl IndexHeader {
+'''),
+    Fn(HDR, 'new', impl='impl IndexHeader', subs=[ret()],
+       spec='    ensures r.num_entries == num_entries, r.data_section_size == data_len, r.magic@ == HEADER_MAGIC@, r.version == 1,'),
+    Raw('}\nimpl<T: Tag> Header<T> {\n'),
     Fn(HDR, 'size', impl='impl<T> Header<T> where T: Tag,',
        subs=[ret()],
        before=[('let index_size', '''proof {
@@ -27,6 +36,10 @@ PARTS = HEAD + consts('LEAD_SIZE', 'INDEX_HEADER_SIZE', 'INDEX_ENTRY_SIZE', 'HEA
         ''')],
        spec='    ensures r as int == hdr_len(*self),'),
     Raw('}\nimpl Header<IndexSignatureTag> {\n'),
+    Fn(HDR, 'new_empty', impl='impl Header<IndexSignatureTag>', subs=[ret()],
+       spec='    ensures wf_counts(r), r.index_entries@.len() == 0, r.store@.len() == 0,'),
+    Fn(HDR, 'clear', impl='impl Header<IndexSignatureTag>',
+       spec='    ensures wf_counts(*final(self)), final(self).index_entries@.len() == 0, final(self).store@.len() == 0,'),
     Fn(HDR, 'padding_required', impl='impl Header<IndexSignatureTag>',
        subs=[ret()],
        spec='    ensures r as int == sigpad(self.index_header.data_section_size as int), 0 <= r < 8,'),
@@ -84,6 +97,9 @@ pub proof fn canary_c16(m: PackageMetadata)
 OBLIGATIONS = {
     'Header::size': ['C16', 'C04'],
     'Header::padding_required': ['C16', 'C09'],
+    'Header::new_empty': ['C16', 'C09'],
+    'Header::clear': ['C16', 'C09'],
+    'IndexHeader::new': ['C16', 'C09'],
     'PackageMetadata::get_package_segment_offsets': ['C16', 'C04'],
     'lemma_ser_entries_len': ['C16'],
     'lemma_ser_header_len': ['C16'],
